@@ -177,7 +177,15 @@ pub fn record_revoke<'w, 's>(_rc: &mut ReactCommands<'w, 's>, token: RevokeToken
 #[kani::stub(<core::any::TypeId as crate::vh::PEq>::eq, crate::vh::stub_typeid_eq)]
 #[kani::stub(ReactCommands::revoke, record_revoke)]
 #[kani::unwind(4)]
-fn once_reactor_runs_once_then_vanishes()
+fn once_reactor_runs_once_then_vanishes() { once_kernel() }
+/// vacuity twin: the end of the once kernel is reachable
+#[kani::proof]
+#[kani::stub(core::any::TypeId::of, crate::vh::stub_typeid_of)]
+#[kani::stub(<core::any::TypeId as crate::vh::PEq>::eq, crate::vh::stub_typeid_eq)]
+#[kani::stub(ReactCommands::revoke, record_revoke)]
+#[kani::unwind(4)]
+fn once_reactor_witness() { once_kernel(); assert!(false, "witness: end of the once kernel reached"); }
+fn once_kernel()
 {
     let mut world = World::new();
     world.m_drop_table::<bevy::model::cell::LeakAll>();      // what the despawn drops is not the subject here
